@@ -1,5 +1,5 @@
 """C18 — the CLI bridge is transparent."""
-from vlib.cfg import Cfg, DefUse, Slice, ref_chain, forward_taint
+from vlib.cfg import Cfg, DefUse, Slice, ref_chain, ref_base, forward_taint
 from vlib.cond import switch_cond, bool_edges
 from vlib.facts import AnchorMissing
 
@@ -91,7 +91,7 @@ def run(cx):
     cx.rule("C18.R5", "termination parity: the results of proxy::handle and proxy::handle_connect go through the same BrokenPipe-is-normal-end handling; no raw close() of a descriptor that still has an owner")
     cx.rule("C18.R6", "forward then wait: in proxy.rs every write_all is followed by a flush of the same writer on every path before the bridge blocks in another read (or returns): bytes already received are never parked in a buffer")
     cx.rule("C18.R7", "close detection precedes reading: in WatchClose::read the data descriptor is read only after the scan for hang-up/error events of both descriptors found nothing, and a hang-up is reported as BrokenPipe")
-    r1(cx); r2(cx); r3(cx); r4(cx); r5(cx); r6(cx); r7(cx)
+    r1(cx); r2(cx); r3(cx); r4(cx); r5(cx); r6(cx); r7(cx); r7_level(cx)
 
 
 def r1(cx):
@@ -204,6 +204,7 @@ def r3(cx):
         cx.check(not lits and derived, "C18.R3", key, "%s proxy::handle" % t.sp,
                  ("connects to the literal address %s, ignoring the configured resolver; " % lits if lits else "") + ("" if derived else "address does not derive from the resolver argument or a Resolve reply"),
                  note_ok="address derives from the resolver argument / a Resolve reply")
+    r3_cache(cx, body, du)
     # no address literal anywhere in the function
     lits = []
     for s in body.stmts():
@@ -214,6 +215,49 @@ def r3(cx):
         for a in t.args:
             if a.is_const and a.cstr() and (a.cstr().startswith("unix:") or a.cstr().startswith("tcp:")): lits.append((a.cstr(), t.sp))
     cx.check(not lits, "C18.R3", "%s:proxy::handle:no-address-literal" % PKG, body.sp, "hard-coded address(es) %s" % lits, note_ok="no hard-coded address")
+
+
+def r3_cache(cx, body, du):
+    """the (interface, address) cache is updated as a pair: after the cached address is overwritten inside the request loop, the remembered
+    interface name is overwritten too before the next request is read or the address is used"""
+    cfg = Cfg(body)
+    conns = [t for t in body.calls("=varlink_connect")]
+    if len(conns) != 1 or conns[0].args[0].place is None: raise AnchorMissing("proxy::handle: varlink_connect(&address)")
+    A = ref_base(du, conns[0].args[0].place.l)[0]
+    # the remembered interface: the String compared (ne/eq) on the edge that guards the address update
+    L = None
+    for t in body.calls("=ne", "=eq"):
+        if t.target is None or len(t.args) != 2: continue
+        locs = [ref_base(du, a.place.l)[0] for a in t.args if a.place is not None]
+        if len(locs) == 2 and all("String" in body.ty(l) for l in locs):
+            # one side is assigned once per iteration (iface), the other persists across iterations
+            for l in locs:
+                wr = [x for x in body.calls("=clone_from") if x.args and x.args[0].place is not None and ref_base(du, x.args[0].place.l)[0] == l]
+                if wr: L = l
+    if L is None: raise AnchorMissing("proxy::handle: remembered interface name (compared with != and updated with clone_from)")
+    def writes(loc):
+        out = []
+        for st in body.stmts():
+            if st.kind == "assign" and st.lhs.l == loc and not st.lhs.p: out.append((st.bb, st.sp))
+        for t in body.calls():
+            if t.callee.indirect or not t.args or t.args[0].place is None: continue
+            if t.callee.name in ("clone_from", "push_str", "clear", "insert_str", "truncate", "replace_range", "clone_into") and ref_base(du, t.args[0].place.l)[0] == loc: out.append((t.bb, t.sp))
+            if t.dest is not None and t.dest.l == loc and not t.dest.p: out.append((t.bb, t.sp))
+        return out
+    Lw = {bb for bb, _ in writes(L)}
+    client_reads = [t for t in body.calls("=read_until") if cfg.dominates(t.bb, conns[0].bb)]
+    if not client_reads: raise AnchorMissing("proxy::handle: request read dominating the connect")
+    stops = [conns[0].bb, client_reads[0].bb] + cfg.returns()
+    n = 0
+    for i, (bb, sp) in enumerate(sorted(set(writes(A)))):
+        if bb not in cfg.reach(client_reads[0].bb): continue          # initialisation before the loop
+        n += 1
+        succ = [d for _, d in cfg.succ[bb]]
+        ok = bb in Lw or all(cfg.must_pass(d, stops, Lw) for d in succ)
+        cx.check(ok, "C18.R3", "%s:proxy::handle:address-write#%d:cache-pair" % (PKG, n - 1), "%s proxy::handle" % sp,
+                 "the cached address is overwritten here, but a path reaches the next request (or the connect) without updating the remembered interface name: a later request for the previously resolved interface skips the lookup and uses an address that belongs to another (or no) interface",
+                 note_ok="followed by the update of the remembered interface on every path")
+    cx.floor("C18.R3", "writes to the cached address inside the request loop", n, 1)
 
 
 def r4(cx):
@@ -324,3 +368,27 @@ def r7(cx):
         ors = [t for t in body.calls("=bitor")]
         if len(ors) < 2: why.append("error mask is not the union of three event kinds")
     cx.check(not why, "C18.R7", "%s:WatchClose::read:hangup-before-data" % PKG, body.sp, "; ".join(why), note_ok="epoll_wait -> scan all events for RDHUP|HUP|ERR (-> BrokenPipe) -> only then read")
+
+
+def r7_level(cx):
+    """WatchClose::read does one epoll_wait and one read(2) per call and its callers read one buffer at a time: that only works with
+    level-triggered registrations (an edge-triggered or one-shot descriptor is not reported again for the bytes left behind)"""
+    import re as _re
+    rel = "varlink-cli/src/watchclose_epoll.rs"
+    n = 0; bad = []
+    for f in cx.ast.file(rel)["_fns"]:
+        for e in f.events:
+            txt = ""
+            if e["k"] == "call": txt = " ".join(e.get("args") or []) + " " + e["text"]
+            elif e["k"] in ("let", "assign", "opassign", "method"): txt = e.get("text", "") + " " + " ".join(e.get("args") or []) if isinstance(e.get("args"), list) else e.get("text", "")
+            elif e["k"] == "macro": txt = e.get("text", "")
+            if e["k"] == "call" and e["text"].replace(" ", "") == "Event::new": n += 1
+            m = _re.findall(r"EPOLL(?:ET|ONESHOT|EXCLUSIVE)\b", txt)
+            if m: bad.append((f.qual, e["line"], sorted(set(m))))
+    from vlib.astfacts import tt_walk
+    vocab = any(t["t"] == "ident" and t["s"] == "EPOLLET" for m in cx.ast.item_macros(rel) if m["path"].endswith("bitflags") for t in tt_walk(m["tokens"]))
+    key = "%s:watchclose_epoll:level-triggered" % PKG
+    if bad:
+        cx.bad("C18.R7", key, "%s:%d %s" % (rel, bad[0][1], bad[0][0]), "descriptor registered with %s: after a wake-up that is answered by one read of at most one buffer, the bytes left in the socket are never reported again, so a message larger than the buffer is cut off" % bad[0][2])
+    else:
+        cx.check(n >= 2 and vocab, "C18.R7", key, rel, "expected at least two Event::new registrations and the EPOLLET definition to be visible (found %d, %s)" % (n, vocab), note_ok="%d registrations, none edge-triggered/one-shot" % n)
